@@ -99,7 +99,7 @@ def run(ctx):
            "trusted_base": common.TRUSTED, "files": files,
            "traces_validated_against_impl": len(cases), "disagreements": len(dis), "input_distribution": dict(dist),
            "exhaustive": True,
-           "rule": "every index -2..size+1 and every slot boundary +-1 s of windows of 1..49 slots x resolutions 60..3600 s x 4 start offsets x 4 base dates; every predicate pattern up to length 7 (quick) / 11 (thorough) x 4 windows x 4 minimum durations, plus random longer tables; each case run on the pure-Python twin, the rebuilt Cython twin and the extracted regenerated Gallina function",
+           "rule": "every index -2..size+1 and every slot boundary +-1 s of windows of 1..49 slots x resolutions 60..3600 s x 4 start offsets x 4 base dates, plus windows of 1, 3 and 10 years at indices around 2^24, 2^26 and 2^28 seconds; every predicate pattern up to length 7 (quick) / 11 (thorough) x 4 windows x 4 minimum durations, plus random longer tables; each case run on the pure-Python twin, the rebuilt Cython twin and the extracted regenerated Gallina function",
            "samples": [{"case": c["f"], "args": c["a"][:12], "impl": i, "model": m} for c, i, m in list(zip(cases, impl, model))[:: max(1, len(cases) // 6)][:6]]}
     common.finish(ctx, "proof", cov, violations,
                   ["instants in (start - resolution, start) truncate toward zero to index 0 (int() is not floor); the property speaks about instants of the window only",
